@@ -11,6 +11,7 @@ import (
 
 	"github.com/ipld/go-storethehash/store/freelist"
 	"github.com/ipld/go-storethehash/store/types"
+	"github.com/ipld/go-storethehash/store/vhook"
 )
 
 type IndexRemapper struct {
@@ -87,6 +88,7 @@ func upgradePrimary(ctx context.Context, filePath, headerPath string, maxFileSiz
 	}
 
 	log.Infow("Upgrading primary storage and splitting into separate files", "newVersion", PrimaryVersion, "fileSize", maxFileSize)
+	vhook.Point("pup.begin")
 	if freeList != nil {
 		// Instead of remapping all the primary offsets in the freelist, call
 		// the garbage collector function to process the freelist and make the
@@ -98,15 +100,18 @@ func upgradePrimary(ctx context.Context, filePath, headerPath string, maxFileSiz
 		}
 	}
 
+	vhook.Point("pup.freeApplied")
 	fileNum, err := chunkOldPrimary(ctx, filePath, int64(maxFileSize))
 	if err != nil {
 		return 0, fmt.Errorf("error chunking primary: %w", err)
 	}
 
+	vhook.Point("pup.header")
 	if err = writeHeader(headerPath, newHeader(maxFileSize)); err != nil {
 		return 0, fmt.Errorf("error writing primary info file: %w", err)
 	}
 
+	vhook.Point("pup.remove")
 	if err = os.Remove(filePath); err != nil {
 		return 0, fmt.Errorf("cannot remove old primary: %w", err)
 	}
@@ -188,6 +193,7 @@ func chunkOldPrimary(ctx context.Context, name string, fileSizeLimit int64) (uin
 
 		written += sizePrefixSize + int64(size)
 		if written >= fileSizeLimit {
+			vhook.Point("pup.chunk.flush")
 			if err = writer.Flush(); err != nil {
 				return 0, err
 			}
@@ -197,6 +203,7 @@ func chunkOldPrimary(ctx context.Context, name string, fileSizeLimit int64) (uin
 			}
 			fileNum++
 			outName = primaryFileName(name, fileNum)
+			vhook.Point("pup.chunk.create")
 			outFile, err = createFileAppend(outName)
 			if err != nil {
 				return 0, err
@@ -207,6 +214,7 @@ func chunkOldPrimary(ctx context.Context, name string, fileSizeLimit int64) (uin
 		}
 		count++
 	}
+	vhook.Point("pup.chunk.last")
 	if written != 0 {
 		if err = writer.Flush(); err != nil {
 			return 0, err
@@ -223,6 +231,7 @@ func createFileAppend(name string) (*os.File, error) {
 // applyFreeList reads the freelist and marks the locations in the old primary file
 // as dead by setting the deleted bit in the record size field.
 func applyFreeList(ctx context.Context, freeList *freelist.FreeList, filePath string) error {
+	vhook.Point("pup.fl.togc")
 	flPath, err := freeList.ToGC()
 	if err != nil {
 		return fmt.Errorf("cannot get freelist gc file: %w", err)
@@ -294,6 +303,7 @@ func applyFreeList(ctx context.Context, freeList *freelist.FreeList, filePath st
 
 			// Mark the record as deleted by setting the highest bit in the
 			// size. This assumes that the record size is < 2^31.
+			vhook.Point("pup.fl.mark")
 			binary.LittleEndian.PutUint32(sizeBuf, recSize|deletedBit)
 			_, err = primaryFile.WriteAt(sizeBuf, int64(offset))
 			if err != nil {
@@ -313,6 +323,7 @@ func applyFreeList(ctx context.Context, freeList *freelist.FreeList, filePath st
 		flFile.Close()
 	}
 
+	vhook.Point("pup.fl.remove")
 	if err = os.Remove(flPath); err != nil {
 		return fmt.Errorf("error removing freelist: %w", err)
 	}
